@@ -1323,6 +1323,10 @@ func TrickyShapes() []*Shape {
 	p := func(name string, t *Shape) *Prop { return &Prop{Name: name, T: t} }
 	scope := func(root string, objs ...*Shape) *Shape { return &Shape{Kind: KScope, Root: root, Objects: objs} }
 	return []*Shape{
+		// recursion through a one-of
+		scope("Expr", obj("Expr", p("e", &Shape{Kind: KOneOfStr, Disc: "_type", Members: []*Member{{KeyS: "lit", T: ref("Lit")}, {KeyS: "neg", T: ref("Expr")}}})), obj("Lit", p("v", &Shape{Kind: KInt}))),
+		// ... and through a one-of with integer keys
+		scope("ExprI", obj("ExprI", p("e", &Shape{Kind: KOneOfInt, Disc: "kind", Members: []*Member{{KeyI: 1, T: ref("LitI")}, {KeyI: 2, T: ref("ExprI")}}})), obj("LitI", p("v", &Shape{Kind: KInt}))),
 		// self reference through the only property
 		scope("A", obj("A", p("a", ref("A")))),
 		// rho: Root -> Node -> Node -> ...
@@ -1337,8 +1341,6 @@ func TrickyShapes() []*Shape {
 		scope("A", obj("A", p("s", scope("I", obj("I", p("back", ref("I"))))))),
 		// recursion through a list and a map (finite inputs exist at every depth)
 		scope("Tree", obj("Tree", p("value", str()), p("children", &Shape{Kind: KList, Items: ref("Tree")}), p("index", &Shape{Kind: KMap, Keys: str(), Vals: ref("Tree")}))),
-		// recursion through a one-of
-		scope("Expr", obj("Expr", p("e", &Shape{Kind: KOneOfStr, Disc: "_type", Members: []*Member{{KeyS: "lit", T: ref("Lit")}, {KeyS: "neg", T: ref("Expr")}}})), obj("Lit", p("v", &Shape{Kind: KInt}))),
 		// an inner scope shadows an outer object ID
 		scope("Outer", obj("Outer", p("x", ref("Leaf")), p("inner", scope("Inner", obj("Inner", p("y", ref("Leaf"))), obj("Leaf", p("v", &Shape{Kind: KInt}))))), obj("Leaf", p("v", str()))),
 		// a struct-mapped root whose map[string]any field holds a recursive map-based object
